@@ -282,8 +282,12 @@ def gen(rng: Rng, tier: str, index: int) -> dict:
         bits = ro.randrange(128) if ro.chance(0.8) else DEFAULT_BITS
         opts = _opts_from_bits(bits)
     steps = _rand_schedules(rng.child('sched'), text, kind)
-    return {'pop': pop, 'kind': kind, 'text': text, 'opts': opts, 'steps': steps,
+    case = {'pop': pop, 'kind': kind, 'text': text, 'opts': opts, 'steps': steps,
             'err': ro.pick(['default', 'default', 'custom'])}
+    if kind == 'kv':
+        # alternative entry point: the caller hands Keyvalues.parse a tokenizer it built itself, with or without a file name
+        case['via_tok'] = rng.child('entry').pick([None, None, 'named', 'unnamed'])
+    return case
 
 
 # ------------------------------------------------------------------ observation
@@ -326,7 +330,12 @@ def observe(case, data, n, filename, counter=None):
                         return obs, ['too-many', len(obs)]
             else:
                 flags = {'x': True, 'y': False}
-                res = Keyvalues.parse(data, filename if filename is not None else '', flags=flags, **case['opts'])
+                fname = filename if filename is not None else ''
+                if case.get('via_tok'):
+                    data = Tokenizer(data, 'prebuilt', TokenSyntaxError, string_bracket=True, allow_escapes=case['opts'].get('allow_escapes', True))
+                    if case['via_tok'] == 'unnamed':
+                        fname = ''
+                res = Keyvalues.parse(data, fname, flags=flags, **case['opts'])
                 return obs, ['tree', _tree(res) if res._real_name is not None else ['<root>', [_tree(c) for c in res]]]
     except TokenSyntaxError as e:
         want = KeyValError if kind == 'kv' else (MyErr if case.get('err') == 'custom' else TokenSyntaxError)
